@@ -63,7 +63,7 @@ def segments(case, obs):
     for seg in segs:
         c = dict(case); c["max_steps"] = seg["max_steps"]
         o = dict(seg)
-        if taken0 is not None and len(taken0) == len(seg.get("start", [])):
+        if taken0 is not None and len(taken0) == len(seg.get("start", [])) and not seg.get("fresh_pop"):
             o["taken0"], o["learned0"] = taken0, learned0
         yield c, o
         if not (o.get("completed") and not o.get("error")):
@@ -214,6 +214,20 @@ class C20(vlib.Driver):
         add(loop="maoff", algo="MADDPG", num_envs=2, learn_step=2, evo_steps=8, max_steps=16, budgets=[16, 20, 24, 24])
         add(loop="maon", algo="IPPO", num_envs=2, learn_step=4, evo_steps=8, max_steps=32, budgets=[32, 48, 40])
         add(loop="maon", algo="IPPO", num_envs=0, learn_step=3, evo_steps=6, max_steps=12, budgets=[12, 13, 36], pop=3, evo=True, mut="hp")
+        #     round 4: ONE TournamentSelection / Mutations object reused for a SECOND population whose indices are larger and
+        #     not contiguous (a population that evolved elsewhere); distinct indices after every generation
+        add(loop="off", algo="DQN", pop=4, evo=True, mut="none", elitism=True, max_steps=8, tour_eval_loop=3,
+            second={"indices": [9, 4, 7, 5], "budget": 19, "preset": {"steps": 3, "nfit": 2, "best": 9}})
+        add(loop="on", algo="PPO", pop=4, evo=True, mut="hp", elitism=True, learn_step=4, evo_steps=8, max_steps=8, tour_eval_loop=3,
+            second={"indices": [9, 4, 7, 5], "budget": 16, "preset": {"steps": 0, "nfit": 2, "best": 7}})
+        add(loop="maoff", algo="MADDPG", pop=3, evo=True, mut="none", elitism=True, max_steps=8, tour_eval_loop=3,
+            second={"indices": [6, 3, 8], "budget": 21, "preset": {"steps": 5, "nfit": 2, "best": 6}})
+        add(loop="maon", algo="IPPO", pop=3, evo=True, mut="none", elitism=False, learn_step=4, max_steps=24,
+            second={"indices": [5, 11, 2], "budget": 48})
+        add(loop="bandit", algo="NeuralTS", pop=3, evo=True, mut="none", elitism=True, episode_steps=4, evo_steps=4, max_steps=4,
+            tour_eval_loop=3, second={"indices": [6, 2, 9], "budget": 8, "preset": {"steps": 0, "nfit": 2, "best": 6}}, batch_size=2)
+        add(loop="offline", algo="CQN", pop=3, evo=True, mut="none", elitism=True, evo_steps=3, max_steps=3, tour_eval_loop=3,
+            second={"indices": [8, 2, 6], "budget": 8, "preset": {"steps": 2, "nfit": 2, "best": 6}})
         #     eval_loop in {2, 3} for every algorithm (one fitness entry per agent and generation whatever the number of episodes)
         add(loop="off", algo="DQN", eval_loop=3, eval_steps=2, max_steps=16)
         add(loop="off", algo="Rainbow DQN", eval_loop=2, max_steps=16, evo=True, mut="none")
@@ -658,7 +672,8 @@ class C20(vlib.Driver):
                 f"obs={'image+swap_channels' if case.get('image') else 'dict' if case.get('dictobs') else 'vector'}",
                 f"generations={min(len(obs.get('gens', [])), 5)}{'+' if len(obs.get('gens', [])) > 5 else ''}",
                 f"completed={bool(obs.get('completed')) and not obs.get('error')}"]
-        labs += [f"calls={len(case.get('budgets') or [0])}", f"eval_loop={case.get('eval_loop', 1)}",
+        labs += [f"calls={len(case.get('budgets') or [0]) + (1 if case.get('second') else 0)}",
+                 f"tournament-object={'reused-for-another-population' if case.get('second') else 'own'}", f"eval_loop={case.get('eval_loop', 1)}",
                  f"handed-over={'permuted+history' if case.get('perm') else 'fresh'}"]
         if any(len(sg.get("gens", [])) == 0 for sg in obs.get("segments") or []):
             labs.append("call-with-budget-already-met")
